@@ -329,6 +329,10 @@ func countMethodIfSwitch(statement IBlockStatementContext, bsInfo *bs_domain.Fun
 }
 
 func (s *BadSmellListener) EnterAnnotation(ctx *AnnotationContext) {
+	// a type annotation on a qualified type ("java.lang.@NonNull String") has no qualifiedName child
+	if ctx.QualifiedName() == nil {
+		return
+	}
 	if currentClzType == "Class" && ctx.QualifiedName().GetText() == "Override" {
 		currentClassBs.OverrideSize++
 	}
